@@ -18,7 +18,17 @@ def packedHist (t : Array String) : String :=
         let (st, x) := sm64 st
         gen k st ((x.toNat % 2 ^ S) :: acc)
       else gen k st ((if init.startsWith "f" then 2 ^ S - 1 else 0) :: acc)
-  let ws0 := gen n (parseHex (init.drop 1).toString).toUInt64 []
+  let ws00 := gen n (parseHex (init.drop 1).toString).toUInt64 []
+  -- init=s<k>: a long sorted array with runs of k equal elements (element i = i / k), storage zeroed first
+  let ws0 :=
+    if init.startsWith "s" then
+      let k := max 1 (parseHex (init.drop 1).toString)
+      let cap := (n * S) / b
+      let vals := (List.range cap).map fun i => (i / k) % 2 ^ b
+      -- the little-endian bit string of all elements, cut into S-bit slots
+      let big := vals.foldr (fun v acc => acc * 2 ^ b + v) 0
+      (List.range n).map fun j => (big / 2 ^ (j * S)) % 2 ^ S
+    else ws00
   let step (st : List Nat × List String) (tok : String) : List Nat × List String :=
     let (ws, rs) := st
     if tok.contains '=' then st else
